@@ -6,15 +6,20 @@
 // the controlled scheduler (every schedule) and must be linearizable with respect to that reference.  (c) [property C08, run as
 // group relay_disconnect_bx] a disconnect request for a connection that has been admitted, in every interleaving with the
 // connection's registration.  (d) [property C05, run as group relay_forward_bx] send-heavy histories: a frame that cannot be forwarded
-// never costs the RECEIVER its connection.
+// never costs the RECEIVER its connection.  (e) [property C04, run as group relay_delivery_bx] histories and two-thread schedules with
+// distinguishable packets: what shows up in a connection's queue is what was sent to its endpoint while it was the active connection,
+// with the true sender, once, in order.
 #![allow(dead_code, unused_imports, unused_variables, unused_macros, unused_mut)]
 macro_rules! trace { ($($t:tt)*) => { () }; }
 macro_rules! debug { ($($t:tt)*) => { () }; }
 macro_rules! info { ($($t:tt)*) => { () }; }
 macro_rules! warn { ($($t:tt)*) => { () }; }
-use std::collections::{HashMap, HashSet, VecDeque};
-use std::sync::Arc;
-use std::time::Duration;
+// `std::sync::Mutex` / `std::sync::RwLock` that a change writes into the extracted code must be the scheduler-aware shims (a thread
+// blocked inside a real lock would stall the controlled scheduler): this local `std` forwards everything else to the real one
+mod std { pub use ::std::*; pub mod sync { pub use ::std::sync::*; pub use crate::sched::Mutex2 as Mutex; pub use crate::sched::RwLock; } }
+use ::std::collections::{HashMap, HashSet, VecDeque};
+use ::std::sync::Arc;
+use ::std::time::Duration;
 //@include shims/sched.rs
 // shims: identifiers
 #[derive(Debug, Clone, Copy, PartialEq, Eq, Hash, PartialOrd, Ord)] pub struct EndpointId(pub u8);
@@ -88,7 +93,7 @@ use dashmap::DashMap;
 //@item iroh-relay/src/server/clients.rs struct ClientState derive=Debug
 // the receiving ends of every connection's queues and its disconnect guard (held by the connection actor in the real server)
 pub struct ConnEnd { pub packets: mpsc::Receiver<Packet>, pub messages: mpsc::Receiver<RelayToClientMsg>, pub guard: Option<OnDisconnectGuard>, pub done: CancellationToken }
-pub static ENDS: std::sync::Mutex<Vec<(ConnectionId, ConnEnd)>> = std::sync::Mutex::new(Vec::new());
+pub static ENDS: ::std::sync::Mutex<Vec<(ConnectionId, ConnEnd)>> = ::std::sync::Mutex::new(Vec::new());
 pub mod watch { #[derive(Debug)] pub struct Receiver<T>(pub T); }
 impl Client {
     // shim: Client::new without the connection actor — it creates the two queues with the configured capacity exactly like the
@@ -126,9 +131,10 @@ impl Clients {
 // @extra-items-here (helpers a change newly calls are spliced in above this line)
 //@include shims/harness.rs
 
-const CAP: usize = 2;
+static CAP_V: std::sync::atomic::AtomicUsize = std::sync::atomic::AtomicUsize::new(2);
+#[allow(non_snake_case)] fn CAP() -> usize { CAP_V.load(std::sync::atomic::Ordering::SeqCst) }
 #[derive(Debug, Clone, Copy, PartialEq, Eq, Hash)]
-enum Op { Connect(u8, u64), Close(u64), Send(u8, u8), Drain(u64), DisconnectConn(u8, u64), DisconnectAll(u8),
+enum Op { Connect(u8, u64), Close(u64), Send(u8, u8), SendN(u8, u8, u8), Drain(u64), DisconnectConn(u8, u64), DisconnectAll(u8),
           // the two halves of Close: the connection's actor ends (its queues close), then it unregisters
           EndActor(u64), Unregister(u64) }
 // ---- the reference registry: what the property says, per endpoint id the open connections in the order they connected
@@ -144,8 +150,8 @@ struct Model {
     ended: HashSet<u64>,                         // connections whose actor has ended but which have not unregistered yet
 }
 impl Model {
-    fn room(&self, c: u64) -> bool { self.packets.get(&c).map_or(0, |v| v.len()) < CAP }
-    fn mroom(&self, c: u64) -> bool { self.messages.get(&c).map_or(0, |v| v.len()) < CAP }
+    fn room(&self, c: u64) -> bool { self.packets.get(&c).map_or(0, |v| v.len()) < CAP() }
+    fn mroom(&self, c: u64) -> bool { self.messages.get(&c).map_or(0, |v| v.len()) < CAP() }
     fn msg(&mut self, c: u64, m: &str) { if !self.ended.contains(&c) && self.mroom(c) { self.messages.entry(c).or_default().push(m.to_string()); } }
     /// returns what the operation returns to its caller, where it returns something
     fn apply(&mut self, op: Op) -> Option<String> {
@@ -176,12 +182,13 @@ impl Model {
                 }
                 None
             }
-            Op::Send(src, dst) => {
+            Op::Send(src, dst) => self.apply(Op::SendN(src, dst, 7)),
+            Op::SendN(src, dst, payload) => {
                 match self.active.get(&dst).copied() {
                     None => Some("Ok".into()),
                     // a connection whose actor has ended cannot be written to any more: the sender learns it, the connection is asked to shut down
                     Some(a) if self.ended.contains(&a) => { self.shutdown_requested.insert(a); Some("Err(Closed)".into()) }
-                    Some(a) => if self.room(a) { self.packets.entry(a).or_default().push((src, 7)); self.sent_to.entry(src).or_default().insert(dst); Some("Ok".into()) } else { Some("Err(Full)".into()) },
+                    Some(a) => if self.room(a) { self.packets.entry(a).or_default().push((src, payload)); self.sent_to.entry(src).or_default().insert(dst); Some("Ok".into()) } else { Some("Err(Full)".into()) },
                 }
             }
             Op::Drain(c) => { self.packets.remove(&c); self.messages.remove(&c); None }
@@ -196,7 +203,7 @@ impl Sys {
     fn apply(&self, op: Op) -> Option<String> {
         match op {
             Op::Connect(e, c) => {
-                let cfg = Config { guard: OnDisconnectGuard { endpoint_id: EndpointId(e), connection_id: ConnectionId(c) }, stream: RelayedStream(()), write_timeout: Duration::from_secs(1), channel_capacity: CAP, protocol_version: ProtocolVersion::V2, rate_limited: None };
+                let cfg = Config { guard: OnDisconnectGuard { endpoint_id: EndpointId(e), connection_id: ConnectionId(c) }, stream: RelayedStream(()), write_timeout: Duration::from_secs(1), channel_capacity: CAP(), protocol_version: ProtocolVersion::V2, rate_limited: None };
                 self.clients.register(cfg, self.metrics.clone()); None
             }
             Op::Close(c) => { self.apply(Op::EndActor(c)); self.apply(Op::Unregister(c)) }
@@ -208,7 +215,8 @@ impl Sys {
                 if let Some(g) = g { self.clients.unregister(g, &self.metrics); }
                 None
             }
-            Op::Send(src, dst) => Some(match self.clients.send_packet(EndpointId(dst), Datagrams(7), EndpointId(src), &self.metrics) { Ok(()) => "Ok".into(), Err(e) => format!("Err({:?})", e.reason) }),
+            Op::Send(src, dst) => self.apply(Op::SendN(src, dst, 7)),
+            Op::SendN(src, dst, payload) => Some(match self.clients.send_packet(EndpointId(dst), Datagrams(payload), EndpointId(src), &self.metrics) { Ok(()) => "Ok".into(), Err(e) => format!("Err({:?})", e.reason) }),
             Op::Drain(c) => { let ends = ENDS.lock().unwrap(); if let Some((_, e)) = ends.iter().find(|(id, _)| id.0 == c) { e.packets.drain(); e.messages.drain(); } None }
             Op::DisconnectConn(e, c) => Some(self.clients.disconnect(EndpointId(e), Some(ConnectionId(c))).to_string()),
             Op::DisconnectAll(e) => Some(self.clients.disconnect(EndpointId(e), None).to_string()),
@@ -325,7 +333,7 @@ fn main() {
             loop {
                 let sys = Arc::new(Sys::new());
                 for op in setup { sys.apply(*op); }
-                let rets: Arc<std::sync::Mutex<(Vec<Option<String>>, Vec<Option<String>>)>> = Default::default();
+                let rets: Arc<::std::sync::Mutex<(Vec<Option<String>>, Vec<Option<String>>)>> = Default::default();
                 let mut progs: Vec<Box<dyn FnOnce() + Send>> = vec![];
                 for (t, ops) in [a.clone(), b.clone()].into_iter().enumerate() {
                     let (sys2, rets2) = (sys.clone(), rets.clone());
@@ -392,7 +400,7 @@ fn main() {
                 sys.apply(Op::Connect(8, 80));
                 if with_older { sys.apply(Op::Connect(1, 1)); }
                 let admitted = Arc::new(std::sync::atomic::AtomicBool::new(false));
-                let requested_after_admission: Arc<std::sync::Mutex<Option<(bool, Option<String>)>>> = Default::default();
+                let requested_after_admission: Arc<::std::sync::Mutex<Option<(bool, Option<String>)>>> = Default::default();
                 let (sys1, adm1) = (sys.clone(), admitted.clone());
                 let (sys2, adm2, rq2) = (sys.clone(), admitted.clone(), requested_after_admission.clone());
                 let progs: Vec<Box<dyn FnOnce() + Send>> = vec![
@@ -468,6 +476,107 @@ fn main() {
             let mut k = idx.len();
             loop { if k == 0 { idx = vec![0; idx.len() + 1]; break; } k -= 1; if idx[k] + 1 < n { idx[k] += 1; for j in k + 1..idx.len() { idx[j] = 0; } break; } }
             if idx.len() > depth { break; }
+        }
+    }
+    // ---- (e) C04: every packet that shows up in a connection's queue was sent to that connection's endpoint while it was the endpoint's
+    //      active connection, carries its sender's id and its contents, shows up once, and behind what was queued before
+    if conc == 4 {
+        let base_ops: Vec<Op> = vec![Op::Connect(1, 1), Op::Connect(1, 2), Op::Close(2), Op::Connect(8, 80), Op::Connect(9, 90), Op::Drain(1), Op::Drain(2), Op::EndActor(1)];
+        let sends: Vec<(u8, u8)> = vec![(8, 1), (9, 1), (1, 8), (8, 9)];
+        let n = base_ops.len() + sends.len();
+        let depth = max_len.max(1);
+        CAP_V.store(3, std::sync::atomic::Ordering::SeqCst);
+        let mut idx: Vec<usize> = vec![0];
+        loop {
+            // the k-th step's packet carries payload k+1: every packet of a history is distinguishable
+            let seq: Vec<Op> = idx.iter().enumerate().map(|(k, i)| if *i < base_ops.len() { base_ops[*i] } else { let (s, d) = sends[*i - base_ops.len()]; Op::SendN(s, d, k as u8 + 1) }).collect();
+            let mut seen = HashSet::new();
+            let valid = seq.iter().all(|o| match o { Op::Connect(_, c) => seen.insert(*c), _ => true });
+            let input = format!("history={:?}", seq);
+            if valid && !rep.skip(&input) {
+                rep.evaluations += 1; if seq.iter().filter(|o| matches!(o, Op::SendN(..))).count() >= 2 { rep.nontrivial += 1; }
+                if seq.len() == 4 && rep.evaluations % 2003 == 1 { rep.sample(&input); }
+                let seq2 = seq.clone();
+                let out = std::panic::catch_unwind(move || {
+                    let (sys, mut model) = (Sys::new(), Model::default());
+                    for (k, op) in seq2.iter().enumerate() {
+                        let before = sys.observe();
+                        // the destination's active connection when the relay accepts the packet: the most recently connected open one
+                        let target = if let Op::SendN(_, d, _) = op { model.active.get(d).copied().filter(|a| !model.ended.contains(a)) } else { None };
+                        let r = sys.apply(*op); model.apply(*op);
+                        let after = sys.observe();
+                        let mut conns: Vec<u64> = before.packets.keys().chain(after.packets.keys()).copied().collect(); conns.sort(); conns.dedup();
+                        for c in conns {
+                            if matches!(op, Op::Drain(x) | Op::EndActor(x) | Op::Close(x) if *x == c) { continue; }
+                            let (qb, qa) = (before.packets.get(&c).cloned().unwrap_or_default(), after.packets.get(&c).cloned().unwrap_or_default());
+                            if !qa.starts_with(&qb) { return Some(("queued-packets-keep-their-order", format!("step {} {:?}: the queue of connection {c} went from {:?} to {:?} (src, payload)", k + 1, op, qb, qa))); }
+                            let extra = &qa[qb.len()..];
+                            if extra.is_empty() { continue; }
+                            match op {
+                                Op::SendN(s, d, p) => {
+                                    if Some(c) != target { return Some(("delivered-only-on-the-addressed-endpoints-active-connection", format!("step {} {:?} (returned {:?}): packet(s) {:?} appeared on connection {c}; the active connection of endpoint {d} is {:?}", k + 1, op, r, extra, target))); }
+                                    if extra.len() > 1 { return Some(("delivered-at-most-once", format!("step {} {:?}: {} packets {:?} appeared on connection {c}", k + 1, op, extra.len(), extra))); }
+                                    if extra[0] != (*s, *p) { return Some(("delivered-with-the-true-sender-and-unchanged-contents", format!("step {} {:?}: connection {c} received (src, payload) = {:?}, sent was {:?}", k + 1, op, extra[0], (s, p)))); }
+                                }
+                                _ => return Some(("delivered-only-what-was-sent", format!("step {} {:?}: packet(s) {:?} appeared on connection {c} although nothing was sent", k + 1, op, extra))),
+                            }
+                        }
+                    }
+                    None
+                });
+                match out { Err(_) => rep.fail("never-panics", "sequential", &input, "forwarding panicked".into()), Ok(Some((ob, d))) => rep.fail(ob, "sequential", &input, d), Ok(None) => {} }
+            }
+            let mut k = idx.len();
+            loop { if k == 0 { idx = vec![0; idx.len() + 1]; break; } k -= 1; if idx[k] + 1 < n { idx[k] += 1; for j in k + 1..idx.len() { idx[j] = 0; } break; } }
+            if idx.len() > depth { break; }
+        }
+        // two threads under the controlled scheduler: sender 8 sends packets 1, 2 to endpoint 1 while (i) sender 9 sends 3, 4 to it, (ii) a second
+        // connection of endpoint 1 takes over, (iii) the active connection of endpoint 1 closes and an older one resumes
+        CAP_V.store(4, std::sync::atomic::Ordering::SeqCst);
+        let scen: Vec<(&str, Vec<Op>, Vec<Op>)> = vec![
+            ("two-senders", vec![Op::Connect(1, 1), Op::Connect(8, 80), Op::Connect(9, 90)], vec![Op::SendN(9, 1, 3), Op::SendN(9, 1, 4)]),
+            ("duplicate-takes-over", vec![Op::Connect(1, 1), Op::Connect(8, 80)], vec![Op::Connect(1, 2)]),
+            ("active-closes", vec![Op::Connect(1, 1), Op::Connect(1, 2), Op::Connect(8, 80)], vec![Op::EndActor(2), Op::Unregister(2)]),
+        ];
+        for (name, setup, other) in &scen {
+            let base = format!("scenario={name} setup={:?} threads=[[SendN(8, 1, 1), SendN(8, 1, 2)], {:?}]", setup, other);
+            let mut prefix: Vec<usize> = vec![];
+            if let Some(o) = &rep.only { if !o.starts_with(&format!("{base} ")) { continue; } if let Some(p) = o.split("choices=").nth(1) { prefix = p.trim_matches(|c| c == '[' || c == ']').split(',').filter_map(|x| x.trim().parse().ok()).collect(); } }
+            loop {
+                let sys = Arc::new(Sys::new());
+                for op in setup { sys.apply(*op); }
+                let rets: Arc<::std::sync::Mutex<Vec<(Op, Option<String>)>>> = Default::default();
+                let mut progs: Vec<Box<dyn FnOnce() + Send>> = vec![];
+                for ops in [vec![Op::SendN(8, 1, 1), Op::SendN(8, 1, 2)], other.clone()] {
+                    let (sys2, rets2) = (sys.clone(), rets.clone());
+                    progs.push(Box::new(move || { for op in ops { let r = sys2.apply(op); rets2.lock().unwrap().push((op, r)); } }));
+                }
+                let out = sched::run(progs, &prefix);
+                let choices: Vec<usize> = out.trace.iter().map(|x| x.1).collect();
+                let input = format!("{base} choices={:?}", choices);
+                rep.evaluations += 1; rep.nontrivial += 1;
+                if rep.evaluations % 7 == 1 { rep.sample(&input); }
+                if out.deadlock { rep.fail("never-deadlocks", "concurrent", &input, "no thread can proceed".into()); }
+                else if !out.panicked.is_empty() { rep.fail("never-panics", "concurrent", &input, format!("thread(s) {:?} panicked", out.panicked)); }
+                else {
+                    let got = sys.observe();
+                    let sent: HashMap<u8, u8> = [(1u8, 8u8), (2, 8), (3, 9), (4, 9)].into_iter().filter(|(p, _)| *p <= 2 || *name == "two-senders").collect();
+                    let mut seen_p: HashMap<u8, u64> = HashMap::new();
+                    for (c, q) in got.packets.iter() {
+                        let owner = got.open.iter().find(|(_, l)| l.contains(c)).map(|(e, _)| *e);
+                        for (src, p) in q {
+                            if owner != Some(1) && !(*name == "active-closes" && *c == 2) { rep.fail("delivered-only-on-the-addressed-endpoints-active-connection", "concurrent", &input, format!("packet (src {src}, payload {p}) addressed to endpoint 1 is queued on connection {c} of endpoint {:?}; threads ran in the order {:?}", owner, out.order)); }
+                            match sent.get(p) { Some(s) if s == src => {}, other => rep.fail("delivered-with-the-true-sender-and-unchanged-contents", "concurrent", &input, format!("connection {c} holds (src {src}, payload {p}); that payload was sent by {:?}", other)) }
+                            if let Some(first) = seen_p.insert(*p, *c) { rep.fail("delivered-at-most-once", "concurrent", &input, format!("payload {p} is queued on connection {first} and again on connection {c}")); }
+                        }
+                        for s in [8u8, 9] { let mine: Vec<u8> = q.iter().filter(|(x, _)| *x == s).map(|(_, p)| *p).collect(); if mine.windows(2).any(|w| w[0] >= w[1]) { rep.fail("queued-packets-keep-their-order", "concurrent", &input, format!("connection {c} holds the packets of sender {s} in the order {:?}; they were sent in ascending order; threads ran in the order {:?}", mine, out.order)); } }
+                    }
+                    // the second packet was accepted by a connection that became active no earlier than the one that took the first
+                    if *name == "duplicate-takes-over" && let (Some(c1), Some(c2)) = (seen_p.get(&1), seen_p.get(&2)) && c1 > c2 { rep.fail("delivered-only-on-the-addressed-endpoints-active-connection", "concurrent", &input, format!("packet 1 went to the newer connection {c1}, the later packet 2 to the displaced connection {c2}")); }
+                }
+                if rep.only.is_some() { break; }
+                match sched::next_prefix(out.trace) { Some(p) => prefix = p, None => break }
+            }
         }
     }
     rep.finish();
